@@ -1866,3 +1866,53 @@ func unnamedNameRule(R string) RuleFunc {
 		c.Check(ok, R, fn+":name", c.P.Pos(d.Decl.Pos()), "the generated name depends on the identity of the added type or on a package-level counter", detail)
 	}
 }
+
+// keepAltsRule: a type rule "mixed" does not wipe the alternatives of a choice.
+func keepAltsRule(R string) RuleFunc {
+	return func(c *core.Ctx) {
+		c.Rule(R, "MixedValueNode.AddConstraint replaces the node's list of alternatives (n.types) by the value of a `type` rule only under a condition that spares `type: \"mixed\"` on a node that has alternatives already. The example builder and the recursion check take the alternatives from that list: with the single entry \"mixed\" in it, Example() of `@a | @b // {type: \"mixed\"}` returns the schema text `@a | @b` (not JSON) and a recursion through both alternatives goes unnoticed")
+		c.Floor(R, 1)
+		const fn = "(*notations/jschema/ischema.MixedValueNode).AddConstraint"
+		d := c.P.FindDecl(fn)
+		if d == nil {
+			c.Unresolved(R, fn)
+			return
+		}
+		n, ok := 0, true
+		var stack []ast.Node
+		ast.Inspect(d.Decl.Body, func(nd ast.Node) bool {
+			if nd == nil {
+				stack = stack[:len(stack)-1]
+				return true
+			}
+			stack = append(stack, nd)
+			as, isA := nd.(*ast.AssignStmt)
+			if !isA || len(as.Lhs) != 1 || core.ExprStr(as.Lhs[0]) != "n.types" {
+				return true
+			}
+			// only the store in the TypeConstraint case matters
+			inTypeCase := false
+			guarded := false
+			for _, a := range stack {
+				if cc, isCC := a.(*ast.CaseClause); isCC {
+					for _, e := range cc.List {
+						if strings.HasSuffix(core.ExprStr(e), "constraint.TypeConstraint") {
+							inTypeCase = true
+						}
+					}
+				}
+				if ifs, isIf := a.(*ast.IfStmt); isIf && strings.Contains(core.ExprStr(ifs.Cond), `"mixed"`) && strings.Contains(core.ExprStr(ifs.Cond), "n.types") {
+					guarded = true
+				}
+			}
+			if inTypeCase {
+				n++
+				if !guarded {
+					ok = false
+				}
+			}
+			return true
+		})
+		c.Check(ok && n > 0, R, fn+":types", c.P.Pos(d.Decl.Pos()), "the `type` rule replaces n.types only when it is not \"mixed\" on a node with alternatives", "a `type: \"mixed\"` rule wipes the alternatives of a choice")
+	}
+}
